@@ -163,34 +163,63 @@ def check_formatters(R, rule):
     R.eq(tpl, ['/', '{}', '/', '{}'], rule, 'method-path-template', site(fm), 'format_method_path template')
     ok_a = len(args) == 2 and term_contains(args[0], lambda x: is_call(x, name='format_service_name') and show(strip_refs(x[2][0])).startswith('arg1') and show(x[2][1]).startswith('arg3')) and term_contains(args[1], lambda x: is_call(x, name='identifier') and show(strip_refs(x[2][0])).startswith('arg2'))
     R.check(ok_a, rule, 'method-path-args', site(fm), 'arguments = [format_service_name(service, emit_package), method.identifier()]: %s' % [show(a)[:70] for a in args])
-    rt = mirlib.returned_terms(fs)
-    tpl, args = fmt_of(fs, rt[0][1]) if rt else (None, [])
-    R.eq(tpl, ['{}', '{}', '{}'], rule, 'service-name-template', site(fs), 'format_service_name template (package, separator, identifier)')
-    if len(args) == 3:
-        sep = strip_refs(args[1])
-        alts = sep[1] if sep[0] == 'phi' else [sep]
-        vals = sorted(str(const_val(a)) for a in alts)
-        R.eq(vals, ['', '.'], rule, 'separator-values', site(fs), 'separator alternatives')
-        # "." only when the package is non-empty
-        sl = sep[2] if sep[0] == 'phi' else None
-        okg = False
-        if sl is not None:
-            for wb in writers_of(fs, sl):
-                w = block_writes(fs, wb, sl)
-                v = const_val(w[0][1]) if w and w[0][0] == 'term' else None
-                g = fs.edge_guards(wb)
-                emp = [vals_ for s_, vals_, tm in g if is_call(strip_refs(tm), name='is_empty')]
-                if v == '.':
-                    okg = emp == [[0]]
-        R.check(okg, rule, 'dot-iff-package', site(fs), 'the "." separator is used exactly when the package is non-empty: %r (else a package-less service would get "/.Svc/Method")' % okg)
-        R.check(term_contains(args[2], lambda x: is_call(x, name='identifier')), rule, 'service-identifier', site(fs), 'third piece = service.identifier() (the protobuf name, not the Rust name)')
-        pk = strip_refs(args[0])
-        okp = term_contains(pk, lambda x: is_call(x, name='package')) and term_contains(pk, lambda x: x and x[0] == 'const' and x[1] == '')
-        R.check(okp, rule, 'package-or-empty', site(fs), 'first piece = if emit_package { service.package() } else { "" }')
+    # format_service_name by feasible path: package empty -> "<identifier>", otherwise "<package>.<identifier>"
+    meta = {}
+    rows = mirlib.path_rows(fs, meta=meta)
+    terms = lambda: meta.get('__terms__', {})
+    is_pkg = lambda t_: term_contains(t_, lambda x: is_call(x, name='package'))
+    is_id = lambda t_: term_contains(t_, lambda x: is_call(x, name='identifier')) and not term_contains(t_, lambda x: is_call(x, name='package'))
+    seen_sh = {}
+    for cons, path in rows:
+        vw = cons_view(cons, meta)
+        emp = view_get(vw, lambda k: terms().get(k) is not None and is_call(strip_refs(terms()[k]), name='is_empty') and is_pkg(terms()[k]))
+        val = mirlib.simplify(fs.ret_on_path(path))
+        fs._path = {bb_: i_ for i_, bb_ in enumerate(path)}
+        try:
+            tpl, args = fmt_of(fs, val)
+        finally:
+            fs._path = None
+        if tpl is not None:
+            pieces = []
+            ai = 0
+            for piece in tpl:
+                if piece == '{}':
+                    a_ = args[ai] if ai < len(args) else ('x',)
+                    ai += 1
+                    cv = const_val(strip_refs(a_))
+                    pieces.append('P' if is_pkg(a_) else ('I' if is_id(a_) else (cv if isinstance(cv, str) else '?:' + show(a_)[:30])))
+                else:
+                    pieces.append(piece)
+        elif is_id(val) and is_call(strip_refs(val)) and strip_refs(val)[3] in ('to_owned', 'to_string', 'into', 'from', 'clone', 'to_str'):
+            pieces = ['I']
+        else:
+            pieces = ['?:' + show(val)[:40]]
+        rendered_empty = [x for x in pieces if x not in ('P', '')]
+        rendered_full = [x for x in pieces if x != '']
+        st = site(fs, path[-1])
+        if emp is True:
+            seen_sh['empty'] = True
+            R.check(rendered_empty == ['I'], rule, 'dot-iff-package', st, 'with an empty package the name is the bare identifier: pieces %r (else a package-less service would get "/.Svc/Method")' % pieces)
+        elif emp in (False, 0) and 'P' not in pieces and pieces[:1] == ['']:
+            continue  # the package piece is the literal "" on this path: is_empty() == false cannot happen
+        elif emp in (False, 0):
+            seen_sh['full'] = True
+            R.check(rendered_full == ['P', '.', 'I'], rule, 'service-name-template', st, 'with a package the name is <package>.<identifier>: pieces %r' % pieces)
+        else:
+            R.bad(rule, 'service-name-template', st, 'a path builds the name (%r) without testing whether the package is empty' % pieces)
+        if 'I' in pieces:
+            R.check(True, rule, 'service-identifier', st, 'the service piece is service.identifier() (the protobuf name, not the Rust name)')
+    R.check(seen_sh.get('empty') and seen_sh.get('full'), rule, 'separator-values', site(fs), 'both cases (package empty / not) are decided: %r' % sorted(seen_sh))
+    pkt = [x for x in find_terms(fs.origin({'cp': {'l': 0}}) if False else ('x',), lambda x: False)]
+    pk_ok = False
+    for bb_, t_ in fs.calls(name='package'):
+        g_ = fs.edge_guards(bb_)
+        pk_ok = any(strip_refs(tm)[0] == 'arg' and (vals == ['else'] or 0 not in vals) for s_, vals, tm in g_)
+    R.check(pk_ok, rule, 'package-or-empty', site(fs), 'the package piece = if emit_package { service.package() } else { "" }: package() is read only on the flag\'s true edge')
     # server match arms come from format_method_path; SERVICE_NAME from format_service_name
-    sgm = tb.body('tonic_build::server::generate_methods')
+    sgm = focus_body(tb, 'tonic_build::server::generate_methods', name='format_method_path')
     c = sgm.calls(name='format_method_path')
-    R.check(len(c) == 1 and [show(strip_refs(sgm.origin(a)))[:4] for a in c[0][1]['args'][:1]] == ['arg1'] and strip_refs(sgm.origin(c[0][1]['args'][2]))[0] == 'arg', rule, 'server-arms-use-formatter', site(sgm), 'server::generate_methods calls format_method_path(service, method, emit_package): %d site(s)' % len(c))
+    R.check(len(c) == 1 and [show(strip_refs(forigin(tb, sgm, a)))[:4] for a in c[0][1]['args'][:1]] == ['arg1'] and strip_refs(forigin(tb, sgm, c[0][1]['args'][2]))[0] == 'arg', rule, 'server-arms-use-formatter', site(sgm), 'server::generate_methods calls format_method_path(service, method, emit_package): %d site(s)' % len(c))
     sgi = tb.body('tonic_build::server::generate_internal')
     c = sgi.calls(name='format_service_name')
     gn = sgi.calls(name='generate_named')
